@@ -280,6 +280,18 @@ def _config(args):
                         written[ev] = w.request("GET", ev).body
                         written[cd] = w.request("GET", cd).body
                         written["@found"] = last["found"]
+                    if data == "stray":
+                        # a client that drops an object directly into the home sets, next to the collections
+                        sv = last["homes"]["calendar"].rstrip("/") + "/stray.ics"
+                        sc_ = last["homes"]["addressbook"].rstrip("/") + "/stray.vcf"
+                        w.request("PUT", sv, {"Content-Type": B.CT_ICS}, B.CAL_BODIES["Z"])
+                        w.request("PUT", sc_, {"Content-Type": B.CT_VCF}, B.CARD_BODIES["L"])
+                        for st2 in starts:
+                            res3, fail3 = walk(w, prefix, st2)
+                            stats["walks"] += 1
+                            if fail3 or not res3["found"]["calendar"] or not res3["found"]["addressbook"]:
+                                vio("collections-hidden-by-object-in-home-set:%s" % mode, "after an object was stored directly in the home sets the walk from %s no longer reaches the collections (%s)" % (st2, fail3 or res3["found"]), {})
+                                break
             elif written:
                 for url, body in written.items():
                     if url.startswith("@"):
@@ -305,8 +317,10 @@ def run(tier, workers=None):
         grid += [(p, u, m, "wsgimod", 1, True) for p in PREFIXES[:2] for u in PRINCIPALS for m in MODES]
         grid += [(p, "/user/", "defaults", "simple", 1, True) for p in PREFIXES]
         grid += [("/dav/", u, "defaults", "proc", 2, True) for u in PRINCIPALS]
+        grid += [(p, "/user/", m, "proc", 1, "stray") for p in PREFIXES[:2] for m in MODES]
     else:
         grid = list(itertools.product(PREFIXES, PRINCIPALS, MODES, FRONTS, [0, 1, 2], [False, True]))
+        grid += list(itertools.product(PREFIXES, PRINCIPALS, MODES, FRONTS, [1], ["stray"]))
     # the wsgi-module front mutates os.environ / reloads a module: keep those configurations in their own processes too
     ctx = mp.get_context("fork")
     with ctx.Pool(nw, maxtasksperchild=8) as pool:
@@ -323,7 +337,7 @@ def run(tier, workers=None):
         "rule": "one evaluation = one deployment configuration (prefix, principal, mode, front end, restarts, user data), each distinct; every one runs %s discovery walks per start from both well-known URLs and the root" % 3,
         "samples": ["%s|%s|%s|%s|restarts=%d|data=%s" % g for g in (grid[0], grid[len(grid) // 2], grid[-1])],
         "walks": walks, "outcomes": outcomes,
-        "grid": {"prefixes": PREFIXES, "principals": PRINCIPALS, "modes": MODES, "fronts": sorted({g[3] for g in grid}), "restarts": sorted({g[4] for g in grid}), "data": sorted({g[5] for g in grid})},
+        "grid": {"prefixes": PREFIXES, "principals": PRINCIPALS, "modes": MODES, "fronts": sorted({g[3] for g in grid}), "restarts": sorted({g[4] for g in grid}), "data": sorted({str(g[5]) for g in grid})},
         "exhaustive": True,
     }
     return rep.finish("exploration", cov, assumptions=[
